@@ -82,7 +82,7 @@ def run(case, ctx):
     from menelaus.partitioners import NNSpacePartitioner
 
     name, cfg = case["det"], case["cfg"]
-    P = ctx.call(f"C18:{name}:ctor", adapters.build, name, cfg)
+    P = ctx.call(f"C18:{name}:ctor", adapters.build, name, cfg, case.get("retype"))
     T = adapters.build(name, cfg)
     compare_decisions = not (name in ("HDDDM", "CDBD") and cfg["detect_batch"] != 3)
     drifts = compared = 0
